@@ -27,6 +27,7 @@ Cl(f, xs) == Node("Call", [func |-> Nm(f), args |-> List(xs), keywords |-> List(
 Ls(xs) == Node("List", [elts |-> List(xs)])
 Asg(t, e) == Node("Assign", [targets |-> List(<<Nm(t)>>), value |-> e])
 Aug(t, e) == Node("AugAssign", [target |-> Nm(t), op |-> Node("Add", NoF), value |-> e])
+AugO(t, o, e) == Node("AugAssign", [target |-> Nm(t), op |-> Node(o, NoF), value |-> e])
 Ret(e) == Node("Return", [value |-> e])
 IfS(c, b, o) == Node("If", [test |-> c, body |-> List(b), orelse |-> List(o)])
 
@@ -44,7 +45,8 @@ Conds == IF Full
                 Un("Not", Cmp(A, "GtE", B)), Un("Not", Cmp(A, "Lt", B)), Cmp(A, "LtE", B), Un("Not", Cmp(A, "LtE", B)), Un("Not", Cmp(A, "Eq", B)), Cmp(A, "NotEq", B) }
          ELSE { C, Cmp(A, "Gt", B), Un("Not", C), Bo("And", <<C, Cmp(A, "Gt", K("int:0"))>>), Cl("any", <<Ls(<<C, Cmp(A, "Gt", B)>>)>>),
                 Bo("Or", <<Un("Not", C), Un("Not", Cmp(A, "Gt", B))>>), Un("Not", Cmp(A, "GtE", B)), Un("Not", Cmp(A, "Lt", B)), Cmp(A, "LtE", B) }
-Kinds == {"asg", "aug", "if-asg", "if-aug", "if-asg-asg", "if-aug-aug", "if-aug-asg", "if-asg-aug", "if-ret-ret", "if-ret", "elif", "ret-expr", "if-asg-other"}
+Kinds == {"asg", "aug", "if-asg", "if-aug", "if-asg-asg", "if-aug-aug", "if-aug-asg", "if-asg-aug", "if-ret-ret", "if-ret", "elif", "ret-expr", "if-asg-other",
+          "if-sub-sub", "if-mul-mul"}      \* augmented assignments with other operators than +
 Inits == {A, K("int:1")}
 
 \* the statement(s) for a kind, a condition and expressions
@@ -55,6 +57,8 @@ Middle(kind, c, e1, e2) ==
     [] kind = "if-aug" -> <<IfS(c, <<Aug("out", e1)>>, <<>>)>>
     [] kind = "if-asg-asg" -> <<IfS(c, <<Asg("out", e1)>>, <<Asg("out", e2)>>)>>
     [] kind = "if-aug-aug" -> <<IfS(c, <<Aug("out", e1)>>, <<Aug("out", e2)>>)>>
+    [] kind = "if-sub-sub" -> <<IfS(c, <<AugO("out", "Sub", e1)>>, <<AugO("out", "Sub", e2)>>)>>
+    [] kind = "if-mul-mul" -> <<IfS(c, <<AugO("out", "Mult", e1)>>, <<AugO("out", "Mult", e2)>>)>>
     [] kind = "if-aug-asg" -> <<IfS(c, <<Aug("out", e1)>>, <<Asg("out", e2)>>)>>
     [] kind = "if-asg-aug" -> <<IfS(c, <<Asg("out", e1)>>, <<Aug("out", e2)>>)>>
     [] kind = "if-asg-other" -> <<IfS(c, <<Asg("out", e1)>>, <<Asg("tmp", e2)>>)>>      \* else assigns ANOTHER variable
